@@ -62,3 +62,5 @@ declare_class('saml2_tophat.sigver:SecurityContext', fields={
     'template': 'Any', 'encrypt_key_type': 'Any',
     '_xmlsec_delete_tmpfiles': 'Any',
 })
+
+declare_class('builtins:BaseException', fields={'args': 'List(Any)'})
